@@ -1,15 +1,21 @@
 package main
 
 import (
+	"bytes"
 	"fmt"
+	"math/big"
 	"reflect"
+	"sort"
+	"strings"
 
 	kmip "github.com/ovh/kmip-go"
 	"github.com/ovh/kmip-go/payloads"
 	"github.com/ovh/kmip-go/ttlv"
 
+	"verifharness/internal/model"
 	"verifharness/internal/report"
 	"verifharness/internal/rng"
+	"verifharness/internal/schema"
 	"verifharness/internal/tree"
 )
 
@@ -108,6 +114,28 @@ func c06Walk(ctx *Ctx, line string, v reflect.Value, depth int) {
 				c06Violate(ctx, line, "attribute-value-dropped", fmt.Sprintf("attribute %q decoded without its value", a.AttributeName))
 			}
 		}
+		// Import request: the object's type is the one named by the FIRST "Object Type" attribute holding an ObjectType
+		if imp, ok := addrOf(v).(*payloads.ImportRequestPayload); ok && imp.Object != nil {
+			found := false
+			for _, a := range imp.Attribute {
+				if a.AttributeName != kmip.AttributeNameObjectType {
+					continue
+				}
+				if want, ok := a.AttributeValue.(kmip.ObjectType); ok {
+					found = true
+					if imp.Object.ObjectType() != want {
+						c06Violate(ctx, line, "import-object-type-mismatch", fmt.Sprintf("Import request: first Object Type attribute says 0x%X, object decoded as %T", uint32(want), imp.Object))
+					}
+					if reg, err := kmip.NewObjectForType(want); err == nil && reflect.TypeOf(reg) != reflect.TypeOf(imp.Object) {
+						c06Violate(ctx, line, "import-object-go-type", fmt.Sprintf("Import request: object type 0x%X decoded as %T, registered %T", uint32(want), imp.Object, reg))
+					}
+					break
+				}
+			}
+			if !found {
+				c06Violate(ctx, line, "import-object-without-type", fmt.Sprintf("Import request decoded an object (%T) although no Object Type attribute names its type", imp.Object))
+			}
+		}
 		// a struct holding an Object next to an ObjectType: they must agree
 		var ot *kmip.ObjectType
 		var obj kmip.Object
@@ -196,5 +224,598 @@ func c06Adversarial(ctx *Ctx, r *rng.R) {
 			att := kmip.Attribute{AttributeName: kmip.AttributeName(nm), AttributeValue: av}
 			run(reqT, mkReq(kmip.OperationAddAttribute, &payloads.AddAttributeRequestPayload{UniqueIdentifier: "id", Attribute: att}))
 		}
+	}
+}
+
+func addrOf(v reflect.Value) any {
+	if v.CanAddr() {
+		return v.Addr().Interface()
+	}
+	return nil
+}
+
+// ---------------------------------------------------------------------------------------------------------
+// The `dispatch` engine: directed dispatch inputs of C06 through the THREE encodings, the pinned attribute
+// specification (Pinned/AttrSpec.lean, served by the model: single source), opaque re-encoding.
+
+type attrSpecRow struct {
+	name string
+	ty   int // TTLV type code of the value
+	ref  int // tag of the structure / enumeration / mask, 0 for plain types
+}
+
+func loadAttrSpec() ([]attrSpecRow, error) {
+	ans, err := model.Run([]string{"c06.attrspec"})
+	if err != nil {
+		return nil, err
+	}
+	f := strings.Fields(ans[0])
+	if len(f) < 2 || f[0] != "ok" {
+		return nil, fmt.Errorf("c06.attrspec: unexpected answer %q", ans[0])
+	}
+	var rows []attrSpecRow
+	for _, tok := range f[1:] {
+		p := strings.Split(tok, ":")
+		if len(p) != 3 {
+			return nil, fmt.Errorf("c06.attrspec: bad row %q", tok)
+		}
+		n, ok := new(big.Int).SetString(p[0], 10)
+		if !ok {
+			return nil, fmt.Errorf("c06.attrspec: bad name in %q", tok)
+		}
+		b := n.Bytes() // leading 1, then the name
+		if len(b) < 1 || b[0] != 1 {
+			return nil, fmt.Errorf("c06.attrspec: bad packed name in %q", tok)
+		}
+		var ty, ref int
+		if _, err := fmt.Sscanf(p[1]+" "+p[2], "%d %d", &ty, &ref); err != nil {
+			return nil, fmt.Errorf("c06.attrspec: bad row %q", tok)
+		}
+		rows = append(rows, attrSpecRow{string(b[1:]), ty, ref})
+	}
+	return rows, nil
+}
+
+var ttlvKindOfCode = map[int]tree.Kind{1: tree.KStruct, 2: tree.KInt, 3: tree.KLong, 4: tree.KBig, 5: tree.KEnum, 6: tree.KBool, 7: tree.KText, 8: tree.KBytes, 9: tree.KDate, 10: tree.KInterval}
+
+// scalarSample: an attribute value item of the given TTLV type (under the Attribute Value tag).
+func scalarSample(ty, ref int) *tree.Item {
+	it := &tree.Item{Tag: kmip.TagAttributeValue, Kind: ttlvKindOfCode[ty]}
+	switch ty {
+	case 2:
+		it.Int = 12
+	case 3:
+		it.Int = 1 << 40
+	case 4:
+		it.Big = big.NewInt(1234567)
+	case 5:
+		it.Int = 1
+		if ref != 0 {
+			best := int64(-1)
+			for v := range ttlv.EnumValuesByTag(ref) {
+				if best < 0 || int64(v) < best {
+					best = int64(v)
+				}
+			}
+			if best >= 0 {
+				it.Int = best
+			}
+		}
+	case 6:
+		it.Bool = true
+	case 7:
+		it.Data = []byte("abc")
+	case 8:
+		it.Data = []byte{1, 2, 3}
+	case 9:
+		it.Int = 1700000000
+	case 10:
+		it.Int = 60
+	}
+	return it
+}
+
+func attrTree(name string, value *tree.Item) *tree.Item {
+	return &tree.Item{Tag: kmip.TagAttribute, Kind: tree.KStruct, Children: []*tree.Item{
+		{Tag: kmip.TagAttributeName, Kind: tree.KText, Data: []byte(name)}, value}}
+}
+
+// encodings of a generic tree: binary by the independent writer; XML / JSON by the library's GENERIC value
+// writer (ttlv.Value — no typed dispatch involved).
+type encoded struct {
+	codec string
+	doc   []byte
+}
+
+func encodeTree(t *tree.Item) []encoded {
+	out := []encoded{{"ttlv", t.Encode()}}
+	for _, c := range textCodecs {
+		doc, pn := guard("Marshal", func() []byte { return c.marshal(toValue(t)) })
+		if pn == "" {
+			out = append(out, encoded{c.name, doc})
+		}
+	}
+	return out
+}
+
+func decodeInto(codec string, doc []byte, ptr any) (err error, panicked string) {
+	switch codec {
+	case "ttlv":
+		return guard("UnmarshalTTLV", func() error { return ttlv.UnmarshalTTLV(append([]byte{}, doc...), ptr) })
+	case "xml":
+		return guard("UnmarshalXML", func() error { return ttlv.UnmarshalXML(doc, ptr) })
+	default:
+		return guard("UnmarshalJSON", func() error { return ttlv.UnmarshalJSON(doc, ptr) })
+	}
+}
+
+func dispatchLine(codec string, dyn int, doc []byte) string {
+	if codec == "ttlv" {
+		return fmt.Sprintf("plan.dec %d 0 %s", dyn, hexUp(doc))
+	}
+	return fmt.Sprintf("#dispatch.dec %s %d %s", codec, dyn, hexUp(doc))
+}
+
+// attrSpecOracle: the value type registered for every standard attribute is the specified one.
+func attrSpecOracle(ctx *Ctx, s *schema.Schema, r *rng.R) {
+	spec, err := loadAttrSpec()
+	if err != nil {
+		ctx.Res.Fail("cannot read the pinned attribute specification from the model: " + err.Error())
+		return
+	}
+	ctx.Res.Count(fmt.Sprintf("dispatch.attrspec-rows=%d", len(spec)))
+	inSpec := map[string]bool{}
+	for _, row := range spec {
+		inSpec[row.name] = true
+		line := "#c06.attrspec " + hexUp([]byte(row.name))
+		ctx.current = line
+		reg, ok := registeredAttrType(kmip.AttributeName(row.name))
+		if !ok {
+			c06Violate(ctx, line, "standard-attribute-not-registered:"+row.name, fmt.Sprintf("attribute %q of the specification has no registered value type: it decodes as an opaque value", row.name))
+			continue
+		}
+		// which structure / enumeration / mask: the registered Go type's own tag
+		if row.ref != 0 {
+			if tg, ok := ttlv.VerifTagForType(reg); !ok || tg != row.ref {
+				c06Violate(ctx, line, "attribute-spec-type:"+row.name, fmt.Sprintf("attribute %q is registered as %s (tag 0x%06X), the specification says 0x%06X", row.name, reg, tg, row.ref))
+			}
+		}
+		// samples: of the specified type (must be accepted, and must come back with that type) and, for plain
+		// types, of every other plain type (must be rejected: never a value of a wrong type)
+		type sample struct {
+			it   *tree.Item
+			good bool
+		}
+		var samples []sample
+		if row.ty == 1 {
+			// a structure: a populated value of the registered type, encoded by the library, must BE a structure
+			p := &popCfg{r: r, s: s, fill: 2, respectGating: true, textMode: 2, extTags: true}
+			val := reflect.New(reg).Elem()
+			p.populate(val)
+			b, pn := guard("MarshalTTLV", func() []byte {
+				return ttlv.MarshalTTLV(&kmip.Attribute{AttributeName: kmip.AttributeName(row.name), AttributeValue: val.Interface()})
+			})
+			if pn == "" {
+				if t, err := tree.Decode(b); err == nil && len(t.Children) >= 2 {
+					samples = append(samples, sample{t.Children[len(t.Children)-1], true})
+				}
+			}
+			samples = append(samples, sample{scalarSample(7, 0), false}, sample{scalarSample(2, 0), false})
+		} else {
+			samples = append(samples, sample{scalarSample(row.ty, row.ref), true})
+			for _, other := range []int{2, 3, 5, 6, 7, 8, 9, 10, 1} {
+				if other == row.ty {
+					continue
+				}
+				o := scalarSample(other, 0)
+				if other == 1 {
+					o = &tree.Item{Tag: kmip.TagAttributeValue, Kind: tree.KStruct}
+				}
+				samples = append(samples, sample{o, false})
+			}
+		}
+		for _, sm := range samples {
+			at := attrTree(row.name, sm.it)
+			for _, e := range encodeTree(at) {
+				dl := fmt.Sprintf("#c06.attrdec %s %s", e.codec, hexUp(e.doc))
+				var a kmip.Attribute
+				derr, pn := decodeInto(e.codec, e.doc, &a)
+				if pn != "" {
+					ctx.Res.Count("dispatch.attrspec.panic") // C02's business
+					continue
+				}
+				ctx.Add(dl, map[bool]string{true: "err", false: "ok"}[derr != nil], true, "")
+				if sm.good {
+					if derr != nil {
+						c06Violate(ctx, dl, "attribute-spec-value-rejected:"+row.name, fmt.Sprintf("attribute %q with a value of its specified TTLV type %d is rejected (%s): %v", row.name, row.ty, e.codec, derr))
+						continue
+					}
+					if reflect.TypeOf(a.AttributeValue) != reg {
+						c06Violate(ctx, dl, "attribute-value-type", fmt.Sprintf("attribute %q decoded as %T, registered %s", row.name, a.AttributeValue, reg))
+					}
+					back, pn := guard("MarshalTTLV", func() []byte { return ttlv.MarshalTTLV(&a) })
+					if pn == "" {
+						if bt, err := tree.Decode(back); err == nil && len(bt.Children) >= 2 {
+							if got := bt.Children[len(bt.Children)-1].Kind; got != ttlvKindOfCode[row.ty] {
+								c06Violate(ctx, dl, "attribute-spec-wire-type:"+row.name, fmt.Sprintf("attribute %q re-encodes with TTLV kind %v, specified type code %d", row.name, got, row.ty))
+							}
+						}
+					}
+					ctx.Res.Count("dispatch.attrspec.accepted")
+				} else {
+					if derr == nil {
+						c06Violate(ctx, dl, "attribute-wrong-type-accepted:"+row.name, fmt.Sprintf("attribute %q (specified TTLV type %d) accepted a value of TTLV kind %v as %T (%s)", row.name, row.ty, sm.it.Kind, a.AttributeValue, e.codec))
+					}
+					ctx.Res.Count("dispatch.attrspec.rejected")
+				}
+			}
+		}
+	}
+	for _, a := range kmip.VerifDumpAttrTypes() {
+		if !inSpec[string(a.Name)] && !a.Name.IsCustom() {
+			c06Violate(ctx, "#c06.attrspec "+hexUp([]byte(a.Name)), "registered-attribute-without-specification:"+string(a.Name), fmt.Sprintf("attribute %q is registered (%s) but has no row in the pinned specification table", a.Name, a.Type))
+		}
+	}
+}
+
+// typeTrail lists the dynamic Go type at every interface position of a message, in traversal order.
+func typeTrail(v reflect.Value, out *[]string, depth int) {
+	if depth > 40 {
+		return
+	}
+	switch v.Kind() {
+	case reflect.Interface:
+		if v.IsNil() {
+			*out = append(*out, "<nil>")
+			return
+		}
+		*out = append(*out, v.Elem().Type().String())
+		typeTrail(v.Elem(), out, depth+1)
+	case reflect.Pointer:
+		if !v.IsNil() {
+			typeTrail(v.Elem(), out, depth+1)
+		}
+	case reflect.Slice:
+		if v.Type().Elem().Kind() == reflect.Uint8 {
+			return
+		}
+		for i := 0; i < v.Len(); i++ {
+			typeTrail(v.Index(i), out, depth+1)
+		}
+	case reflect.Struct:
+		if v.Type() == tValue || v.Type() == tTStruct || v.Type() == tTime || v.Type() == tBigInt {
+			return
+		}
+		for i := 0; i < v.NumField(); i++ {
+			if v.Type().Field(i).IsExported() {
+				typeTrail(v.Field(i), out, depth+1)
+			}
+		}
+	}
+}
+
+func opaqueKids() []*tree.Item {
+	return []*tree.Item{
+		{Tag: 0x540001, Kind: tree.KInt, Int: 7},
+		{Tag: 0x540002, Kind: tree.KStruct, Children: []*tree.Item{{Tag: 0x540003, Kind: tree.KText, Data: []byte("opaque")}, {Tag: 0x540004, Kind: tree.KBool, Bool: true}}},
+		{Tag: 0x540005, Kind: tree.KEnum, Int: 0x80000001},
+		{Tag: 0x540006, Kind: tree.KBytes, Data: []byte{0xDE, 0xAD}},
+	}
+}
+
+func pvTree() *tree.Item {
+	return &tree.Item{Tag: kmip.TagProtocolVersion, Kind: tree.KStruct, Children: []*tree.Item{
+		{Tag: kmip.TagProtocolVersionMajor, Kind: tree.KInt, Int: 1}, {Tag: kmip.TagProtocolVersionMinor, Kind: tree.KInt, Int: 4}}}
+}
+
+func messageTree(response bool, op uint32, payload *tree.Item) *tree.Item {
+	if !response {
+		return &tree.Item{Tag: kmip.TagRequestMessage, Kind: tree.KStruct, Children: []*tree.Item{
+			{Tag: kmip.TagRequestHeader, Kind: tree.KStruct, Children: []*tree.Item{pvTree(), {Tag: kmip.TagBatchCount, Kind: tree.KInt, Int: 1}}},
+			{Tag: kmip.TagBatchItem, Kind: tree.KStruct, Children: []*tree.Item{{Tag: kmip.TagOperation, Kind: tree.KEnum, Int: int64(op)}, payload}}}}
+	}
+	return &tree.Item{Tag: kmip.TagResponseMessage, Kind: tree.KStruct, Children: []*tree.Item{
+		{Tag: kmip.TagResponseHeader, Kind: tree.KStruct, Children: []*tree.Item{pvTree(), {Tag: kmip.TagTimeStamp, Kind: tree.KDate, Int: 1700000000}, {Tag: kmip.TagBatchCount, Kind: tree.KInt, Int: 1}}},
+		{Tag: kmip.TagBatchItem, Kind: tree.KStruct, Children: []*tree.Item{{Tag: kmip.TagOperation, Kind: tree.KEnum, Int: int64(op)}, {Tag: kmip.TagResultStatus, Kind: tree.KEnum, Int: 0}, payload}}}}
+}
+
+type dispatchEnv struct {
+	ctx        *Ctx
+	s          *schema.Schema
+	reqT, resT planTarget
+	registered map[uint32]bool
+}
+
+// runTree decodes the three encodings of an independently built message tree. expect: "ok" (must be accepted),
+// "err" (must be rejected), "" (either); opaque: the decoded value must re-encode to exactly the binary of the tree.
+func (e *dispatchEnv) runTree(t *tree.Item, response bool, expect string, opaque bool, class string) {
+	tg := e.reqT
+	if response {
+		tg = e.resT
+	}
+	bin := t.Encode()
+	for _, enc := range encodeTree(t) {
+		line := dispatchLine(enc.codec, tg.dyn, enc.doc)
+		e.ctx.current = line
+		ptr := reflect.New(tg.ty.Elem())
+		derr, pn := decodeInto(enc.codec, enc.doc, ptr.Interface())
+		impl := "ok"
+		switch {
+		case pn != "":
+			impl = "panic"
+		case derr != nil:
+			impl = "err"
+		}
+		if enc.codec == "ttlv" {
+			r := impl
+			if impl == "ok" {
+				if str, err := e.s.Render(ptr, e.s.Dyns[tg.dyn].Kind); err == nil {
+					r = "ok " + str
+				}
+			}
+			e.ctx.Add(line, r, true, "C06,C02")
+		} else {
+			e.ctx.Add(line, impl, true, "")
+		}
+		e.ctx.Res.Count("dispatch." + class + "." + enc.codec + "." + impl)
+		if impl == "panic" {
+			if expect != "" {
+				c06Violate(e.ctx, line, class+":decoder-panic", fmt.Sprintf("%s (%s): the decoder panicked (%s) where the property requires %s", class, enc.codec, pn, expect))
+			}
+			continue // otherwise C02's business (its engines decode the same classes)
+		}
+		if expect != "" && impl != expect {
+			c06Violate(e.ctx, line, class+":expected-"+expect, fmt.Sprintf("%s (%s): decoder answered %s, the property requires %s (%v)", class, enc.codec, impl, expect, derr))
+		}
+		if impl != "ok" {
+			continue
+		}
+		c06Walk(e.ctx, line, ptr, 0)
+		if opaque {
+			back, pn := guard("MarshalTTLV", func() []byte { return ttlv.MarshalTTLV(ptr.Interface()) })
+			if pn != "" || !bytes.Equal(back, bin) {
+				got := "panic"
+				if bt, err := tree.Decode(back); err == nil {
+					got = bt.Render()
+				}
+				c06Violate(e.ctx, line, class+":opaque-not-preserved", fmt.Sprintf("%s (%s): the decoded message does not re-encode to the original bytes: %s", class, enc.codec, firstDiff(t.Render(), got)))
+			}
+		}
+	}
+}
+
+// runValue: a message built from Go values, through the library's three writers.
+func (e *dispatchEnv) runValue(msg any, response bool, class string) {
+	tg := e.reqT
+	if response {
+		tg = e.resT
+	}
+	var want []string
+	typeTrail(reflect.ValueOf(msg), &want, 0)
+	encs := []encoded{}
+	if b, pn := guard("MarshalTTLV", func() []byte { return ttlv.MarshalTTLV(msg) }); pn == "" {
+		encs = append(encs, encoded{"ttlv", b})
+	}
+	for _, c := range textCodecs {
+		if doc, pn := guard("Marshal", func() []byte { return c.marshal(msg) }); pn == "" {
+			encs = append(encs, encoded{c.name, doc})
+		}
+	}
+	for _, enc := range encs {
+		line := dispatchLine(enc.codec, tg.dyn, enc.doc)
+		e.ctx.current = line
+		ptr := reflect.New(tg.ty.Elem())
+		derr, pn := decodeInto(enc.codec, enc.doc, ptr.Interface())
+		impl := "ok"
+		switch {
+		case pn != "":
+			impl = "panic"
+		case derr != nil:
+			impl = "err"
+		}
+		if enc.codec == "ttlv" {
+			r := impl
+			if impl == "ok" {
+				if str, err := e.s.Render(ptr, e.s.Dyns[tg.dyn].Kind); err == nil {
+					r = "ok " + str
+				}
+			}
+			e.ctx.Add(line, r, true, "C06,C02")
+		} else {
+			e.ctx.Add(line, impl, true, "")
+		}
+		e.ctx.Res.Count("dispatch." + class + "." + enc.codec + "." + impl)
+		if impl != "ok" {
+			continue
+		}
+		c06Walk(e.ctx, line, ptr, 0)
+		if class == "conforming" {
+			var got []string
+			typeTrail(ptr, &got, 0)
+			if strings.Join(got, ",") != strings.Join(want, ",") {
+				c06Violate(e.ctx, line, "conforming:types-differ-after-decode", fmt.Sprintf("(%s) dynamic types of the decoded message differ from the original: %s", enc.codec, firstDiff(strings.Join(want, ","), strings.Join(got, ","))))
+			}
+		}
+	}
+}
+
+func init() {
+	register(&Engine{
+		Name: "dispatch",
+		Rule: "C06 through the three encodings (binary by the independent writer, XML/JSON by the library's generic value writer or, for typed messages, its typed writers): every operation code 0..0x40 and 0x7FFFFFFF, 0x80000000, 0xFFFFFFFF x request/response with an opaque payload (unregistered codes — the 16 named-but-unimplemented ones included — must decode to UnknownPayload reporting that code and re-encode to the identical bytes); Import requests without / with two different / with a late / with an ill-typed Object Type attribute; Get/Export/Register with mismatching and unregistered object types; unknown and custom attribute names with values of every TTLV type (opaque, identical re-encoding); every standard attribute name with a value of its SPECIFIED type (pinned table Pinned/AttrSpec.lean served by the model: must be accepted and come back with that type) and of every other plain type (must be rejected); populated messages restricted to text-representable content decoded from XML and JSON with the registered-type walk and a comparison of the dynamic types with the original; distinct = distinct line; nontrivial = all",
+		Run:  runDispatch,
+	})
+}
+
+func runDispatch(ctx *Ctx) {
+	s := getSchema()
+	r := ctx.R
+	e := &dispatchEnv{ctx: ctx, s: s,
+		reqT:       planTarget{s.Roots["RequestMessage"], reflect.TypeFor[*kmip.RequestMessage](), 0},
+		resT:       planTarget{s.Roots["ResponseMessage"], reflect.TypeFor[*kmip.ResponseMessage](), 0},
+		registered: map[uint32]bool{}}
+	for _, o := range kmip.VerifDumpOperations() {
+		e.registered[uint32(o.Operation)] = true
+	}
+	if len(ctx.Replay) > 0 {
+		for _, l := range ctx.Replay {
+			f := strings.SplitN(l, " ", 4)
+			if len(f) == 4 && f[0] == "plan.dec" {
+				if b, err := hexDecode(f[3]); err == nil {
+					if t, err := tree.Decode(b); err == nil {
+						e.runTree(t, f[1] == fmt.Sprint(e.resT.dyn), "", false, "replay")
+					}
+				}
+			}
+		}
+		return
+	}
+	// ---- 1. the pinned attribute specification ----
+	attrSpecOracle(ctx, s, r)
+
+	// ---- 2. every small operation code and the boundary codes, both directions, opaque payload ----
+	var ops []uint32
+	for op := uint32(0); op <= 0x40; op++ {
+		ops = append(ops, op)
+	}
+	ops = append(ops, 0x7FFFFFFF, 0x80000000, 0xFFFFFFFF)
+	for _, op := range ops {
+		for _, response := range []bool{false, true} {
+			ptag := kmip.TagRequestPayload
+			if response {
+				ptag = kmip.TagResponsePayload
+			}
+			pl := &tree.Item{Tag: ptag, Kind: tree.KStruct, Children: opaqueKids()}
+			switch {
+			case e.registered[op]:
+				// a registered operation with foreign content: error or a value of the registered type
+				e.runTree(messageTree(response, op, pl), response, "", false, "registered-op-foreign-payload")
+			case op == 0 && response:
+				// Operation 0 in a response is "no operation": the payload cannot be attributed
+				e.runTree(messageTree(response, op, pl), response, "", false, "response-op-zero")
+			default:
+				e.runTree(messageTree(response, op, pl), response, "ok", true, "unregistered-op")
+			}
+			// an EMPTY payload structure too
+			if !e.registered[op] && !(op == 0 && response) {
+				e.runTree(messageTree(response, op, &tree.Item{Tag: ptag, Kind: tree.KStruct}), response, "ok", true, "unregistered-op-empty")
+			}
+		}
+	}
+
+	// ---- 3. unknown / custom attribute names with values of every TTLV type: opaque, identical re-encoding ----
+	for _, nm := range []string{"x-custom", "y-custom", "x-", "Vendor Attribute", "Short Unique Identifier", "Protection Level", "X-Upper", "cryptographic length", "Object  Type", ""} {
+		for _, ty := range []int{2, 3, 4, 5, 6, 7, 8, 9, 10, 1} {
+			val := scalarSample(ty, 0)
+			if ty == 1 {
+				val = &tree.Item{Tag: kmip.TagAttributeValue, Kind: tree.KStruct, Children: opaqueKids()}
+			}
+			pl := &tree.Item{Tag: kmip.TagRequestPayload, Kind: tree.KStruct, Children: []*tree.Item{
+				{Tag: kmip.TagUniqueIdentifier, Kind: tree.KText, Data: []byte("id")}, attrTree(nm, val)}}
+			e.runTree(messageTree(false, uint32(kmip.OperationAddAttribute), pl), false, "ok", true, "opaque-attribute")
+		}
+	}
+
+	// ---- 4. Import requests: where does the object's type come from ----
+	p := &popCfg{r: r, s: s, fill: 1, respectGating: true, textMode: 2, extTags: true}
+	objTree := func(ot kmip.ObjectType) *tree.Item {
+		for k := 0; k < 50; k++ {
+			t, obj := p.genObject()
+			if t != ot {
+				continue
+			}
+			if b, pn := guard("MarshalTTLV", func() []byte { return ttlv.MarshalTTLV(obj) }); pn == "" {
+				if it, err := tree.Decode(b); err == nil {
+					return it
+				}
+			}
+		}
+		return nil
+	}
+	otAttr := func(ot uint32) *tree.Item {
+		return attrTree("Object Type", &tree.Item{Tag: kmip.TagAttributeValue, Kind: tree.KEnum, Int: int64(ot)})
+	}
+	other := attrTree("x-note", &tree.Item{Tag: kmip.TagAttributeValue, Kind: tree.KText, Data: []byte("n")})
+	uid := &tree.Item{Tag: kmip.TagUniqueIdentifier, Kind: tree.KText, Data: []byte("id")}
+	imp := func(kids ...*tree.Item) *tree.Item {
+		return messageTree(false, uint32(kmip.OperationImport), &tree.Item{Tag: kmip.TagRequestPayload, Kind: tree.KStruct, Children: kids})
+	}
+	nImp := ctx.N(4, 40)
+	for k := 0; k < nImp; k++ {
+		a, b := kmip.ObjectTypeSymmetricKey, kmip.ObjectTypeSecretData
+		if k%2 == 1 {
+			a, b = kmip.ObjectTypeSecretData, kmip.ObjectTypeOpaqueObject
+		}
+		objA, objB := objTree(a), objTree(b)
+		if objA == nil || objB == nil {
+			continue
+		}
+		e.runTree(imp(uid, otAttr(uint32(a)), objA), false, "ok", false, "import-wellformed")
+		e.runTree(imp(uid, other, otAttr(uint32(a)), other, objA), false, "ok", false, "import-type-attribute-late")
+		e.runTree(imp(uid, other, objA), false, "err", false, "import-no-object-type")
+		e.runTree(imp(uid, objA), false, "err", false, "import-no-attribute")
+		e.runTree(imp(uid, otAttr(uint32(a)), otAttr(uint32(b)), objA), false, "ok", false, "import-two-types-object-of-first")
+		e.runTree(imp(uid, otAttr(uint32(a)), otAttr(uint32(b)), objB), false, "err", false, "import-two-types-object-of-second")
+		e.runTree(imp(uid, otAttr(uint32(b)), objA), false, "err", false, "import-object-of-other-type")
+		e.runTree(imp(uid, otAttr(0x3F), objA), false, "err", false, "import-unregistered-object-type")
+		e.runTree(imp(uid, attrTree("Object Type", &tree.Item{Tag: kmip.TagAttributeValue, Kind: tree.KInt, Int: int64(a)}), objA), false, "err", false, "import-ill-typed-object-type")
+		// objects under an object type field (Get / Export responses, Register request)
+		otItem := func(v uint32) *tree.Item { return &tree.Item{Tag: kmip.TagObjectType, Kind: tree.KEnum, Int: int64(v)} }
+		get := func(kids ...*tree.Item) *tree.Item {
+			return messageTree(true, uint32(kmip.OperationGet), &tree.Item{Tag: kmip.TagResponsePayload, Kind: tree.KStruct, Children: kids})
+		}
+		e.runTree(get(otItem(uint32(a)), uid, objA), true, "ok", false, "get-wellformed")
+		e.runTree(get(otItem(uint32(b)), uid, objA), true, "err", false, "get-object-of-other-type")
+		e.runTree(get(otItem(0x3F), uid, objA), true, "err", false, "get-unregistered-object-type")
+		e.runTree(get(otItem(0), uid, objA), true, "err", false, "get-object-type-zero")
+		e.runTree(get(otItem(0xFFFFFFFF), uid, objA), true, "err", false, "get-object-type-max")
+		exp := messageTree(true, uint32(kmip.OperationExport), &tree.Item{Tag: kmip.TagResponsePayload, Kind: tree.KStruct, Children: []*tree.Item{otItem(uint32(b)), uid, otAttr(uint32(a)), objA}})
+		e.runTree(exp, true, "err", false, "export-object-of-other-type")
+		reg := messageTree(false, uint32(kmip.OperationRegister), &tree.Item{Tag: kmip.TagRequestPayload, Kind: tree.KStruct, Children: []*tree.Item{otItem(uint32(b)),
+			{Tag: kmip.TagTemplateAttribute, Kind: tree.KStruct}, objA}})
+		e.runTree(reg, false, "err", false, "register-object-of-other-type")
+	}
+
+	// ---- 5. populated messages through the library's typed writers, XML and JSON included ----
+	n := ctx.N(120, 3000)
+	seq := 0
+	for i := 0; i < n; i++ {
+		response := i%2 == 1
+		tg := e.reqT
+		if response {
+			tg = e.resT
+		}
+		seq = i / 2
+		pp := &popCfg{r: r, s: s, fill: i % 3, respectGating: true, textMode: 2, opSeq: &seq}
+		x := reflect.New(tg.ty.Elem())
+		pp.populate(x.Elem())
+		e.runValue(x.Interface(), response, "conforming")
+	}
+	// mismatching dispatch information written by the library itself (it does not validate on encode)
+	nAdv := ctx.N(20, 400)
+	for i := 0; i < nAdv; i++ {
+		otA, _ := p.genObject()
+		_, objB := p.genObject()
+		e.runValue(&kmip.ResponseMessage{Header: kmip.ResponseHeader{ProtocolVersion: kmip.V1_4, BatchCount: 1},
+			BatchItem: []kmip.ResponseBatchItem{{Operation: kmip.OperationGet, ResponsePayload: &payloads.GetResponsePayload{ObjectType: otA, UniqueIdentifier: "id", Object: objB}}}}, true, "adversarial-get")
+		ops := s.Ops
+		a, b := ops[r.Intn(len(ops))], ops[r.Intn(len(ops))]
+		pl := kmip.VerifNewResponsePayload(kmip.Operation(a.Op))
+		p.populate(reflect.ValueOf(pl).Elem())
+		e.runValue(&kmip.ResponseMessage{Header: kmip.ResponseHeader{ProtocolVersion: kmip.V1_4, BatchCount: 1},
+			BatchItem: []kmip.ResponseBatchItem{{Operation: kmip.Operation(b.Op), ResponsePayload: pl}}}, true, "adversarial-payload-under-other-op")
+	}
+	// coverage floor: every directed class must have produced decodes in the three encodings
+	var missing []string
+	for _, class := range []string{"unregistered-op", "opaque-attribute", "import-wellformed", "import-no-object-type", "conforming"} {
+		for _, codec := range []string{"ttlv", "xml", "json"} {
+			if ctx.Res.Distribution["dispatch."+class+"."+codec+".ok"]+ctx.Res.Distribution["dispatch."+class+"."+codec+".err"] == 0 {
+				missing = append(missing, class+"/"+codec)
+			}
+		}
+	}
+	sort.Strings(missing)
+	if len(missing) > 0 {
+		ctx.Res.Fail("dispatch: no decode happened for " + strings.Join(missing, ", "))
 	}
 }
